@@ -214,3 +214,39 @@ def c19_code(code: int) -> bool:
             return _col_key(Color.default())
         return _col_key(Color.from_ansi(col[1]))
     return got_key == (frozenset(attrs), conv(fg), conv(bg), None)
+
+
+# --- two proxies on one console (stdout and stderr while a live display runs): buffers must not be shared -----------------
+_TOK2 = ["a", "b", "\n", "c\n"]
+
+
+@symx("C19-fileproxy-two-streams", timeout=900, kind="P",
+      functions=["rich/file_proxy.py:FileProxy.__init__", "rich/file_proxy.py:FileProxy.write", "rich/file_proxy.py:FileProxy.flush"],
+      bounds="two FileProxy objects on one console (as Live installs for stdout and stderr) x every sequence of 4 writes, each a "
+             "token from %r to a solver-chosen stream, then both flushed: every line of each stream is printed exactly once, "
+             "complete, and each stream's lines keep their order (a partial line pending on one stream never leaks into the other)"
+             % (_TOK2,))
+def c19_two(e):
+    c = Console(file=io.StringIO(), color_system=None, force_terminal=True, width=80, legacy_windows=False, _environ={})
+    proxies = [FileProxy(c, io.StringIO()), FileProxy(c, io.StringIO())]
+    streams = ["", ""]
+    for i in range(4):
+        which = int(e.mk("stream%d" % i, 0, 1))
+        tok = _TOK2[int(e.mk("tok%d" % i, 0, len(_TOK2) - 1))]
+        tag = "xy"[which]
+        text = tok.replace("a", tag + "a").replace("b", tag + "b").replace("c", tag + "c")
+        proxies[which].write(text)
+        streams[which] += text
+    for p in proxies:
+        p.flush()
+    got = c.file.getvalue().split("\n")
+    for which, tag in enumerate("xy"):
+        want = [l for l in streams[which].split("\n")]
+        if want and want[-1] == "":
+            want.pop()
+        mine = [l for l in got if l.startswith(tag) or (l == "" and False)]
+        # lines of this stream that contain text, in order; blank lines cannot be attributed to a stream
+        if [l for l in want if l] != mine:
+            return False
+    blanks = sum(1 for s in streams for l in (s.split("\n")[:-1] if s.endswith("\n") else s.split("\n")[:-1]) if l == "")
+    return sum(1 for l in got[:-1] if l == "") == blanks
